@@ -57,6 +57,12 @@ func c11Cases(tier string, seed int64) []core.Case {
 			}})
 		}
 	}
+	// a fid number clunked under an executing request and bound again before the disconnect: the disconnect still
+	// reports every fid object destroyed exactly once (the scenario is C04's; here only the teardown is judged)
+	for _, dotu := range []bool{true, false} {
+		dotu := dotu
+		cases = append(cases, core.Case{ID: fmt.Sprintf("fid-number-rebound-under-a-request/dotu=%v", dotu), Run: func(ctx *core.Ctx) core.Result { return runInvalidatedUnder("C11", dotu) }})
+	}
 	for _, ifaces := range []string{"conn-only", "fid-only", "req-only"} {
 		ifaces := ifaces
 		cases = append(cases, core.Case{ID: "optional-interfaces/" + ifaces, Run: func(ctx *core.Ctx) core.Result { return c11Subset(ctx, ifaces) }})
